@@ -7,7 +7,7 @@ from ..rules import batching, bind, keys
 from ..rules.match import m_arrcall, m_binop, product_factors
 from ..rules.siblings import swap_map
 from ..rules.trialsib import HD, WD, Sib, key, nelec, restricted_default
-from ..symex import (Evaluator, array_fn, call_parts, const, getitem, is_const, match_scan, show, strip_wrappers,
+from ..symex import (Evaluator, array_fn, call_parts, const, mk, getitem, is_const, match_scan, show, strip_wrappers,
                      subterms, sym)
 from .c04 import input_ham_keys
 
@@ -178,14 +178,35 @@ def auto_fd(ctx):
             why = f"{len(scans)} scans over the Cholesky vectors (expected 3: +eps, 0, -eps)"
         else:
             info = []
+            mapped = []
             for sc in scans:
                 f, init, xs, length = match_scan(sc)
                 if init.op != "tuple" or not init.args:
+                    # a map over the Cholesky vectors (no carry): the step is an argument bound into the mapped function
                     info = None
-                    break
+                    if f.op == "closure":
+                        x_ = mk("scan_x", xs, 0)
+                        try:
+                            b_ = strip_wrappers(ev.open_closure(f, [init, x_], at_call=sc))
+                        except AnalysisError:
+                            b_ = None
+                        y_ = strip_wrappers(b_.args[1]) if b_ is not None and b_.op == "tuple" and len(b_.args) == 2 else None
+                        if y_ is not None and y_.op == "call" and y_.args[0].op == "attr":
+                            _, p_, k_ = call_parts(y_)
+                            mapped.append((y_.args[0], list(p_) + [k_[q_] for q_ in sorted(k_)], xs))
+                    continue
                 info.append((f, init.args[0], init.args[1:], xs))
+            if info is None and len(mapped) == 3 and len({len(m_[1]) for m_ in mapped}) == 1:
+                diff = [i_ for i_ in range(len(mapped[0][1])) if len({m_[1][i_].uid for m_ in mapped}) > 1]
+                if len(diff) == 1:
+                    class _F:        # stands in for the scanned function: one callee
+                        pass
+                    info = [(m_[0], m_[1][diff[0]], tuple(a_ for j_, a_ in enumerate(m_[1]) if j_ != diff[0]), m_[2]) for m_ in mapped]
             if info is None:
-                why = "unmodelled scan carry"
+                ctx.rep.note(f"wave_function_auto.{meth}: the three evaluations over the Cholesky vectors are written in a form "
+                             f"the stencil rule does not model (no (step, walker, data) carry, no mapped call with one "
+                             f"differing argument); not judged")
+                continue
             else:
                 # one scan body: the same closure, or closures made from the same function text (the three scans may be
                 # issued by three calls of one helper parametrised by the step)
@@ -205,6 +226,12 @@ def auto_fd(ctx):
                     if x.op == "unop" and x.args[0] == "-" and x.args[1].op == "attr" and x.args[1].args[1] == "eps":
                         minus.append(x)
                 ok = same_f and same_rest and same_xs and len(zero) == 1 and len(plus) == 1 and len(minus) == 1
+                if not ok and mapped and not (zero or plus or minus):
+                    # mapped form whose differing argument is not the bare step (the rotation was evaluated in place): the
+                    # step values are not read off; not judged
+                    ctx.rep.note(f"wave_function_auto.{meth}: three mapped evaluations over the Cholesky vectors found, the finite-"
+                                 f"difference step is not an explicit argument of the mapped call; the stencil rule is not applied")
+                    continue
                 why = "three evaluations of one function at +eps, 0, -eps over the same Cholesky vectors" if ok \
                     else (f"same body {same_f}, same walker/data {same_rest}, same vectors {same_xs}, steps "
                           f"{[show(x) for x in steps]}")
